@@ -250,7 +250,7 @@ class _Inline(_InternalNode):
         """        assert self.op_type.identifier
         input_names = [""",
         """        assert self.op_type.identifier
-        if not self.subgraphs and getattr(self, "_proto_cache", None) is not None and self._proto_cache[0] == scope.node[self]:
+        if not list(self.subgraphs) and getattr(self, "_proto_cache", None) is not None and self._proto_cache[0] == scope.node[self]:
             return [onnx.NodeProto.FromString(self._proto_cache[1])]
         input_names = ["""), ("src/spox/_node.py",
         """                node_proto.attribute.append(attr_proto)
@@ -258,7 +258,7 @@ class _Inline(_InternalNode):
         return [node_proto]""",
         """                node_proto.attribute.append(attr_proto)
 
-        if not self.subgraphs:
+        if not list(self.subgraphs):
             self.__dict__["_proto_cache"] = (scope.node[self], node_proto.SerializeToString())
         return [node_proto]""")]),
 }
